@@ -25,7 +25,9 @@ REQUIRED_TAGS = ["edit:eol-comment", "edit:own-line-comment", "edit:blank-line",
 ASSUMPTIONS = ["an edit is a layout edit iff the grammar-derived lexer yields the same token stream up to NEWLINE multiplicity / TAB spelling and the text stays a sentence"]
 
 COMMENTS = ["# c", "#", "# G(1) | 0", "#name x", '# "quoted" {p} q0', "#\t tab", "# for int i in 0:3", "#float array A =", "# " + "long comment " * 12,
-            "## | [] () , = ** 1+2j", "#" + " " * 40 + "x", "# unbalanced \" quote and { brace", "#include \"x.xbb\"", "# é unicode ü"]
+            "## | [] () , = ** 1+2j", "#" + " " * 40 + "x", "# unbalanced \" quote and { brace", "#include \"x.xbb\"", "# é unicode ü",
+            "# form feed\x0cRgate(0.3) | 1", "# vertical tab\x0bVac | 0", "# fs\x1cG | 1", "# gs\x1dG | 1", "# rs\x1eG | 1", "# nel\u0085Xgate(1) | 2",
+            "# ls\u2028Zgate(2) | 0", "# ps\u2029Zgate(2) | 0"]
 
 
 def signature(toks):
